@@ -13,8 +13,9 @@ Case (JSON-able):
             voluntary yields) - what follows a re-registration is judged
   ignore    ignore_invalid_triggers; queued
   threads   list (per thread) of calls; call = {'tag', 'kind', 'args', 'script'}
-            kind: ev (getattr(model, name)(tag)) | trig (model.trigger(name, tag)) | add_transition |
-                  add_states | set_state | remove_model
+            kind: ev (getattr(model, name)(tag)) | trig (model.trigger(name, tag)) | dispatch (machine.dispatch(name, tag):
+                  the event on every registered model, ONE locked call) | add_transition | add_states | set_state |
+                  get_state | remove_model
             script: {str(k): {'snap': 'pickle' | 'deepcopy' | 'model' (optional), 'sub': [call…],
                   'raise': False | 'exc' | 'base' | 'kbd'}} — what the k-th callback
                   invocation of this call does (re-entrant calls from inside the callback, then return / raise an
@@ -53,10 +54,11 @@ FLAT_STATES = ['A', 'B', 'C']
 # _stack / scoped / states / events / prefix_path are switched), so their callbacks are yield points in a nested scope
 HSM_STATES = ['A', 'B', {'name': 'C', 'children': ['1', '2'], 'initial': '1',
                          'transitions': [['inner', '1', '2'], ['inner', '2', '1'], ['flip', '1', '2']]}]
-FLAT_TRANS = [['go', 'A', 'B'], ['go', 'B', 'C'], ['back', 'C', 'A'], ['back', 'B', 'A'], ['step', 'A', 'C']]
-HSM_TRANS = [['go', 'A', 'B'], ['go', 'B', 'C'], ['back', 'C', 'A'], ['back', 'B', 'A'], ['step', 'C_1', 'C_2']]
-EVENTS = {'flat': ['go', 'back', 'step', 'to_A', 'to_B', 'to_C'],
-          'hsm': ['go', 'back', 'step', 'to_A', 'to_B', 'to_C', 'to_C_2', 'inner', 'inner', 'flip', 'to_C']}
+SYNC = {'trigger': 'sync', 'source': ['A', 'B'], 'dest': 'C', 'conditions': ['peer_ready']}
+FLAT_TRANS = [['go', 'A', 'B'], ['go', 'B', 'C'], ['back', 'C', 'A'], ['back', 'B', 'A'], ['step', 'A', 'C'], SYNC]
+HSM_TRANS = [['go', 'A', 'B'], ['go', 'B', 'C'], ['back', 'C', 'A'], ['back', 'B', 'A'], ['step', 'C_1', 'C_2'], SYNC]
+EVENTS = {'flat': ['go', 'back', 'step', 'to_A', 'to_B', 'to_C', 'sync'],
+          'hsm': ['go', 'back', 'step', 'to_A', 'to_B', 'to_C', 'to_C_2', 'inner', 'inner', 'flip', 'to_C', 'sync']}
 EVENTS['hsmg'] = EVENTS['hsm']
 STATE_NAMES = {'flat': ['A', 'B', 'C'], 'hsm': ['A', 'B', 'C', 'C_1', 'C_2']}
 STATE_NAMES['hsmg'] = STATE_NAMES['hsm']
@@ -68,7 +70,14 @@ N_SPARE = 2
 
 
 class Model(object):
-    pass
+    """`peer_ready` is a transition condition that reads ANOTHER model's state (order-sensitive outcomes)"""
+    peers = ()
+    idx = 0
+
+    def peer_ready(self, *args, **kwargs):
+        if len(self.peers) < 2:
+            return True
+        return str(getattr(self.peers[(self.idx + 1) % len(self.peers)], 'state', '')) == 'B'
 
 
 CURRENT = None      # the Run being executed in this process (recorders are picklable and find it here)
@@ -158,6 +167,9 @@ class Run(object):
                            prepare_event=[self.rec('P')], before_state_change=[self.rec('B')],
                            finalize_event=[self.rec('Z')], **kw)
         self.models = [Model() for _ in range(case['nmodels'])]
+        for i, mod in enumerate(self.models):
+            mod.idx = i
+            mod.peers = self.models
         self.spares = [Model() for _ in range(N_SPARE)]
         for m, mod in enumerate(self.models):
             ex = case['extras'].get(str(m)) or []
@@ -252,6 +264,10 @@ class Run(object):
             return self.machine.set_state(args[0], self.models[args[1]])
         if kind == 'remove_model':
             return self.machine.remove_model(self.spares[args[0]])
+        if kind == 'dispatch':
+            return self.machine.dispatch(args[0], tag)
+        if kind == 'get_state':
+            return self.machine.get_state(args[0]).name
         if kind == 'dyn_ev':
             return getattr(self.dyn[args[0]], args[1])(tag)
         if kind == 'dyn_add':
@@ -335,7 +351,7 @@ class Run(object):
             names = sorted(m.get_nested_state_names()) if is_hsm(self.case) else sorted(m.states.keys())
         except Exception as e:    # pragma: no cover
             names = ['?%s' % type(e).__name__]
-        self.final = {'states': [str(getattr(x, 'state', None)) for x in self.models + self.dyn],
+        self.final = {'states': [str(getattr(x, 'state', None)) for x in self.models + self.dyn + self.spares],
                       'dyn_registered': [x in m.models for x in self.dyn], 'names': [str(n) for n in names],
                       'events': ev, 'nmodels': len(m.models),
                       'triggers': sorted(k for k in ev)}
